@@ -299,7 +299,7 @@ func genInterfereCase(rt *rapid.T) interfereCase {
 
 func TestC03Interfere(t *testing.T) {
 	st := statsFor("C03", "TestC03Interfere")
-	st.Rule = "a document is brought into a generated state (absent / live / tombstone, with or without the xattr _x) and Update or WriteUpdateWithXattrs (body+xattr, or asking for a tombstone) is called with a callback that, on its first 1-3 invocations, itself performs 0-3 generated writes to the same key through any handle (Set, Add, Delete, WriteCas cas=0, Remove, UpdateXattrs, WriteTombstoneWithXattrs, WriteSubDoc, PurgeTombstones) - i.e. exactly between the call's read and its write; the call must retry until its last invocation was shown the version that is current when it writes, and store f(that version); non-trivial = an interfering write produced a new version; distinct by case"
+	st.Rule = "a document is brought into a generated state (absent / live / tombstone, with or without the xattr _x) and Update or WriteUpdateWithXattrs (body+xattr, or asking for a tombstone) is called with a callback that, on its first 1-11 invocations, itself performs 0-3 generated writes to the same key through any handle (Set, Set with PreserveExpiry, Add, Delete, WriteCas cas=0, Remove, UpdateXattrs, WriteTombstoneWithXattrs, WriteSubDoc, PurgeTombstones, SetWithMeta / DeleteWithMeta with a CAS an hour ahead) - i.e. exactly between the call's read and its write; the call must retry until its last invocation was shown the version that is current when it writes, and store f(that version); non-trivial = an interfering write produced a new version; distinct by case"
 	if replayMode() {
 		rp := loadReplay("TestC03Interfere")
 		if rp == nil {
